@@ -401,18 +401,25 @@ Proof.
     unfold inv, wr, wk, playing in *; cbn in *. fin6.
   - destruct ((csm_status_moved_permanently <=? rstatus rr) && (rstatus rr <=? csm_status_use_proxy)
               && negb (loc_absent (rloc rr))); [|inversion H; subst; fin6].
-    destruct (reset cfg w1) as [w2 r2] eqn:E2.
-    destruct (reset_spec _ _ _ _ E2 I1 W1) as (P2 & I2 & W2 & _ & _ & _ & _ & _ & _ & L2 & X2 & _).
-    assert (REC : forall nr, do_describe f cfg nr false w2 = (w', r) ->
+    assert (REC : forall nr w2, inv (wst w2) -> wr (wst w2) ->
+       st_lasturl (wst w2) = st_lasturl (wst w1) -> st_ctx (wst w2) = st_ctx (wst w1) ->
+       match rloc rr with
+       | LocBad => (w2, Err eURLParse)
+       | _ => do_describe f cfg nr false w2
+       end = (w', r) ->
        r <> Panic /\ inv (wst w') /\ wk (wst w') /\
        (is_ok r -> wr (wst w') /\ st_lasturl (wst w') = true) /\
        (st_lasturl (wst w) = true -> st_lasturl (wst w') = true) /\
        st_ctx (wst w') = st_ctx (wst w)).
-    { intros nr Hr. destruct (IH _ _ _ _ _ Hr I2 W2) as (Q1 & Q2 & Q3 & Q4 & Q5 & Q6).
-      split6; auto; try congruence. intro. apply Q5. congruence. }
-    destruct r2 as [u|e|]; try contradiction;
-      destruct (rloc rr); try (inversion H; subst; fin6; fail);
-      (destruct nred as [[|k]|]; [inversion H; subst; fin6 | eapply REC; eauto | eapply REC; eauto]).
+    { intros nr w2 I2 W2 L2 X2 Hr.
+      destruct (rloc rr); try (inversion Hr; subst; fin6; fail);
+        (destruct (IH _ _ _ _ _ Hr I2 W2) as (Q1 & Q2 & Q3 & Q4 & Q5 & Q6);
+         split6; auto; try congruence; intro; apply Q5; congruence). }
+    destruct nred as [[|k]|]; [inversion H; subst; fin6| |];
+      (destruct (reset cfg w1) as [w2 r2] eqn:E2;
+       destruct (reset_spec _ _ _ _ E2 I1 W1) as (P2 & I2 & W2 & _ & _ & _ & _ & _ & _ & L2 & X2 & _);
+       destruct r2 as [u|e|]; try contradiction;
+       (eapply REC; [exact I2|exact W2|exact L2|exact X2|]; destruct (rloc rr); exact H)).
 Qed.
 
 Lemma validate_switch cfg s p secure t : validate cfg s p secure t = VSwitch -> cproto cfg = None.
@@ -457,6 +464,18 @@ Definition safe_media (cfg : config) (m : media) : Prop := mctl m <> CtlNil \/ x
 Definition safe_switch (cfg : config) (s : cst) : Prop :=
   st_lasturl s = true \/ xn1 cfg = true \/ cproto cfg <> None.
 
+Lemma maybe_strans_props ps wx wy :
+  wy = wx \/ wy = upd (set_strans (Some ps)) wx ->
+  (inv (wst wx) -> inv (wst wy)) /\ (wr (wst wx) -> wr (wst wy)) /\
+  st_lasturl (wst wy) = st_lasturl (wst wx) /\ st_ctx (wst wy) = st_ctx (wst wx).
+Proof.
+  intros [E|E]; subst wy; [auto|]. rewrite upd_st. split4.
+  - apply inv_set_strans.
+  - destruct wx as [s ? ? ?]; destruct s; unfold wr; cbn; auto.
+  - destruct wx as [s ? ? ?]; destruct s; reflexivity.
+  - destruct wx as [s ? ? ?]; destruct s; reflexivity.
+Qed.
+
 Ltac fin5 := split5; auto using wr_wk; try discriminate; try (intros []; fail); try congruence.
 
 Lemma do_setup_spec : forall fuel cfg m w w' r,
@@ -482,15 +501,14 @@ Proof.
             end) as [p secure].
   destruct (match p with PTCP => free_channel (st_medias (wst w0)) | _ => Some 0 end);
     [|inversion H; subst; fin6].
-  assert (U : (match mctl m with CtlNil => true | _ => false end) = true -> xf10 cfg = true).
-  { destruct Sm as [Sm|Sm]; [|auto]. destruct (mctl m); try discriminate; congruence. }
-  destruct (match mctl m with CtlNil => if xf10 cfg then CtlErr else CtlNil | c => c end) eqn:Ectl;
-    try (inversion H; subst; fin6; fail).
-  all: assert (Un : (match mctl m with CtlNil => true | _ => false end) = false)
-         by (destruct (mctl m); auto; rewrite (U eq_refl) in Ectl; discriminate).
-  all: rewrite Un in H.
+  destruct (mctl m) eqn:Ectl; [ | | inversion H; subst; fin6 ].
+  all: cbv beta iota zeta in H.
   all: destruct (mback m && negb (cback cfg)); [inversion H; subst; fin6|].
   all: destruct (mpm0 m && (negb (play_side (wst w0)) || negb (proto_eqb p PTCP))); [inversion H; subst; fin6|].
+  2:{ (* the control attribute does not resolve: refused before the request is written *)
+      assert (Xf : xf10 cfg = true) by (destruct Sm as [Sm|Sm]; [congruence|exact Sm]).
+      rewrite Xf in H. cbn [andb] in H. inversion H; subst; fin6. }
+  cbn [andb] in H.
   all: destruct (do_ cfg mSetup false false w0) as [w1 r1] eqn:E1.
   all: destruct (do_spec _ _ _ _ _ _ E1 C0 W0) as (P1 & K1 & C1 & WK1 & WR1).
   all: assert (I1 : inv (wst w1)) by (eapply inv_frame; eauto).
@@ -534,15 +552,27 @@ Proof.
   all: assert (X2' : st_ctx (wst w2) = st_ctx (wst w1))
          by (rewrite X2, upd_st; destruct w1 as [s1 ? ? ?]; destruct s1; reflexivity).
   all: destruct r2 as [u2|e2|]; try contradiction.
-  all: set (w3 := upd (set_strans (Some (PTCP, secure))) w2) in *.
-  all: assert (I3 : inv (wst w3)) by (unfold w3; rewrite upd_st; auto using inv_set_strans).
-  all: assert (W3 : wr (wst w3))
-         by (unfold w3; rewrite upd_st; destruct w2 as [s2 ? ? ?]; destruct s2; unfold wr in *; cbn in *; auto).
-  all: assert (L3 : st_lasturl (wst w3) = st_lasturl (wst w1))
-         by (unfold w3; rewrite upd_st; rewrite <- L2'; destruct w2 as [s2 ? ? ?]; destruct s2; reflexivity).
-  all: assert (X3 : st_ctx (wst w3) = st_ctx (wst w1))
-         by (unfold w3; rewrite upd_st; rewrite <- X2'; destruct w2 as [s2 ? ? ?]; destruct s2; reflexivity).
-  all: destruct (xn1 cfg && negb (st_lasturl (wst w3))) eqn:En1; [eapply RECOK; eauto|].
+  all: set (w3 := if xn2 cfg then w2 else upd (set_strans (Some (PTCP, secure))) w2) in *.
+  all: destruct (maybe_strans_props (PTCP, secure) w2 w3) as (I3' & W3' & L3' & X3');
+         [unfold w3; destruct (xn2 cfg); auto|].
+  all: pose proof (I3' I2) as I3; pose proof (W3' W2) as W3.
+  all: assert (L3 : st_lasturl (wst w3) = st_lasturl (wst w1)) by congruence.
+  all: assert (X3 : st_ctx (wst w3) = st_ctx (wst w1)) by congruence.
+  all: assert (FIX : forall wx, inv (wst wx) -> wr (wst wx) -> st_lasturl (wst wx) = st_lasturl (wst w1) \/ st_lasturl (wst wx) = true ->
+                st_ctx (wst wx) = st_ctx (wst w1) ->
+                do_setup f cfg m (if xn2 cfg then upd (set_strans (Some (PTCP, secure))) wx else wx) = (w', r) ->
+                r <> Panic /\ inv (wst w') /\ wk (wst w') /\ (is_ok r -> wr (wst w')) /\
+                (st_lasturl (wst w) = true -> st_lasturl (wst w') = true) /\ st_ctx (wst w') = st_ctx (wst w))
+    by (intros wx Ix Wx Lx Xx Hx;
+        destruct (maybe_strans_props (PTCP, secure) wx (if xn2 cfg then upd (set_strans (Some (PTCP, secure))) wx else wx))
+          as (Iy & Wy & Ly & Xy); [destruct (xn2 cfg); auto|];
+        assert (Sy : safe_switch cfg (wst (if xn2 cfg then upd (set_strans (Some (PTCP, secure))) wx else wx)))
+          by (destruct Lx as [Lx|Lx]; [unfold safe_switch in *; rewrite Ly, Lx; exact Ss1 | left; congruence]);
+        destruct (IH _ _ _ _ _ Hx (Iy Ix) (Wy Wx) Sm Sy) as (Q1 & Q2 & Q3 & Q4 & Q5 & Q6);
+        split6; auto; [intro HL; apply Q5; rewrite Ly; destruct Lx as [Lx|Lx]; congruence | congruence]).
+  all: cbv zeta in H.
+  all: fold w3 in H.
+  all: destruct (xn1 cfg && negb (st_lasturl (wst w3))) eqn:En1; [eapply (FIX w3); eauto|].
   all: assert (Ul : negb (st_lasturl (wst w3)) = false)
          by (destruct Ss1 as [Sl|[Sx|Sc]];
              [rewrite L3, Sl; reflexivity | rewrite Sx in En1; cbn in En1; exact En1 | congruence]).
@@ -553,16 +583,7 @@ Proof.
          [|inversion H; subst; split6; auto; try discriminate; try (intros []; fail);
            [intro; apply L4; congruence|congruence]].
   all: destruct (WR4 I) as (W4 & Lt4).
-  all: assert (Ss4 : safe_switch cfg (wst w4)) by (left; exact Lt4).
-  all: destruct (xn2 cfg).
-  all: match type of H with do_setup _ _ _ ?wx = _ =>
-         assert (Ix : inv (wst wx)) by (rewrite ?upd_st; auto using inv_set_strans);
-         assert (Wx : wr (wst wx)) by (rewrite ?upd_st; destruct w4 as [s4 ? ? ?]; destruct s4; unfold wr in *; cbn in *; auto);
-         assert (Lx : st_lasturl (wst wx) = true) by (rewrite ?upd_st; destruct w4 as [s4 ? ? ?]; destruct s4; cbn in *; auto);
-         assert (Xx : st_ctx (wst wx) = st_ctx (wst w4)) by (rewrite ?upd_st; destruct w4 as [s4 ? ? ?]; destruct s4; cbn in *; auto);
-         destruct (IH _ _ _ _ _ H Ix Wx Sm (or_introl Lx)) as (Q1 & Q2 & Q3 & Q4 & Q5 & Q6);
-         split6; auto; try (intro; apply Q5; exact Lx); try congruence
-       end.
+  all: eapply (FIX w4); eauto; congruence.
 Qed.
 
 Lemma cstate_eqb_eq a b : cstate_eqb a b = true <-> a = b.
@@ -754,14 +775,12 @@ Proof.
   destruct (st_strans (wst w)) as [[p0 secure]|] eqn:Et; [|congruence].
   destruct (reset cfg w) as [w1 r1] eqn:E1.
   destruct (reset_spec _ _ _ _ E1 Hi Hw) as (P1 & I1 & W1 & _ & _ & _ & _ & _ & _ & L1 & X1 & _).
-  set (w2 := upd (set_strans (Some (PTCP, secure))) w1) in *.
-  assert (I2 : inv (wst w2)) by (unfold w2; rewrite upd_st; auto using inv_set_strans).
-  assert (W2 : wr (wst w2))
-    by (unfold w2; rewrite upd_st; destruct w1 as [s1 ? ? ?]; destruct s1; unfold wr in *; cbn in *; auto).
-  assert (L2 : st_lasturl (wst w2) = st_lasturl (wst w))
-    by (unfold w2; rewrite upd_st, <- L1; destruct w1 as [s1 ? ? ?]; destruct s1; reflexivity).
-  assert (X2 : st_ctx (wst w2) = st_ctx (wst w))
-    by (unfold w2; rewrite upd_st, <- X1; destruct w1 as [s1 ? ? ?]; destruct s1; reflexivity).
+  set (w2 := if xn2 cfg then w1 else upd (set_strans (Some (PTCP, secure))) w1) in *.
+  destruct (maybe_strans_props (PTCP, secure) w1 w2) as (I2' & W2' & L2' & X2');
+    [unfold w2; destruct (xn2 cfg); auto|].
+  pose proof (I2' I1) as I2. pose proof (W2' W1) as W2.
+  assert (L2 : st_lasturl (wst w2) = st_lasturl (wst w)) by congruence.
+  assert (X2 : st_ctx (wst w2) = st_ctx (wst w)) by congruence.
   assert (Hm' : msafe cfg (if rev then List.rev (st_medias (wst w)) else st_medias (wst w)))
     by (destruct rev; [apply Forall_rev_|]; exact Hm).
   assert (CONT : forall w3, inv (wst w3) -> wr (wst w3) -> safe_switch cfg (wst w3) ->
@@ -777,9 +796,25 @@ Proof.
     - destruct (do_play_spec _ _ _ _ Hc Q2 (Q4 I)) as (R1 & R2 & R3 & R4 & R5 & R6).
       unfold post6. split6; auto; congruence.
     - inversion Hc; subst. unfold post6. split6; auto; congruence. }
+  assert (FIX : forall wx, inv (wst wx) -> wr (wst wx) ->
+            (st_lasturl (wst w) = true -> st_lasturl (wst wx) = true) -> safe_switch cfg (wst wx) ->
+            st_ctx (wst wx) = st_ctx (wst w) ->
+            match setup_all cfg (if rev then List.rev (st_medias (wst w)) else st_medias (wst w))
+                    (if xn2 cfg then upd (set_strans (Some (PTCP, secure))) wx else wx) with
+            | (w4, Ok _) => do_play cfg w4
+            | x => x
+            end = (w', r) -> post6 w w' r).
+  { intros wx Ix Wx Lx Sx Xx Hc.
+    destruct (maybe_strans_props (PTCP, secure) wx (if xn2 cfg then upd (set_strans (Some (PTCP, secure))) wx else wx))
+      as (Iy & Wy & Ly & Xy); [destruct (xn2 cfg); auto|].
+    eapply CONT; [apply Iy; exact Ix|apply Wy; exact Wx| | | |exact Hc].
+    - unfold safe_switch in *. rewrite Ly. exact Sx.
+    - rewrite Ly. exact Lx.
+    - congruence. }
+  cbv zeta in H. fold w2 in H.
   destruct r1 as [u1|e1|]; try contradiction.
   all: destruct (xn1 cfg && negb (st_lasturl (wst w2))) eqn:En1.
-  all: try (eapply CONT; [exact I2|exact W2| |congruence|exact X2|exact H];
+  all: try (eapply (FIX w2); [exact I2|exact W2|congruence| |exact X2|exact H];
             unfold safe_switch; right; left; apply Bool.andb_true_iff in En1; tauto).
   all: assert (Ul : negb (st_lasturl (wst w2)) = false)
          by (destruct Ss as [Sl|Sx]; [rewrite L2, Sl; reflexivity | rewrite Sx in En1; exact En1]).
@@ -790,9 +825,7 @@ Proof.
          [|inversion H; subst; unfold post6; split6; auto; try discriminate; try (intros []; fail);
            [intro; apply L3; congruence|congruence]].
   all: destruct (WR3 I) as (W3 & Lt3).
-  all: eapply CONT; [| | | | |exact H].
-  all: try (destruct (xn2 cfg); rewrite ?upd_st; auto using inv_set_strans; fail).
-  all: try (destruct (xn2 cfg); rewrite ?upd_st; destruct w3 as [s3 ? ? ?]; destruct s3; unfold wr, safe_switch in *; cbn in *; auto; congruence).
+  all: eapply (FIX w3); [exact I3|exact W3|intro; exact Lt3|left; exact Lt3|congruence|exact H].
 Qed.
 
 Lemma inv_set_tcheck2 s : inv s -> inv (set_tcheck 2 s).
@@ -1077,10 +1110,11 @@ Proof.
     inversion H; subst. apply die_dead in Ed. split; congruence.
 Qed.
 
-(* ---------- 4. where the code as it is violates the property: concrete scripts ---------- *)
+(* ---------- 4. regression: where the code BEFORE the fix commits violated the property ----------
+   [cfg_before] = Model.cfg_old (no repair), [cfg_cur] = Model.cfg_now (the code in /repo). *)
 
-Definition cfg_asis (p : option proto) (creds : bool) : config :=
-  mkCfg p creds false false false false false None false false false false.
+Definition cfg_before (p : option proto) (creds : bool) : config := cfg_old p creds false false false false.
+Definition cfg_cur (p : option proto) (creds : bool) : config := cfg_now p creds false false false false.
 
 Definition rsimple (st : N) : resp := mkResp st SessAbsent false LocAbsent false None None.
 Definition r401 : resp := mkResp 401 SessAbsent true LocAbsent false None None.
@@ -1098,20 +1132,24 @@ Definition mNIL : media := mkMedia CtlNil false false.   (* a=control:trackID=%z
 Definition script_f10 : script :=
   [(mOptions, [EvResp r401]); (mOptions, [EvResp (rsimple 200)]); (mDescribe, [EvResp (rdescribe [mNIL])])].
 Lemma f10_panics :
-  calls (cfg_asis None true) 1 false [ADescribe; ASetup 0] (cl_init script_f10 None) = None.
+  calls (cfg_before None true) 1 false [ADescribe; ASetup 0] (cl_init script_f10 None) = None.
 Proof. vm_compute. reflexivity. Qed.
 
 (* F10 without credentials: the SETUP written with a nil URL is answered 401 *)
 Definition script_f10b : script :=
   [(mOptions, [EvResp (rsimple 200)]); (mDescribe, [EvResp (rdescribe [mNIL])]); (mSetup, [EvResp (rsimple 401)])].
 Lemma f10b_panics :
-  calls (cfg_asis None false) 1 false [ADescribe; ASetup 0] (cl_init script_f10b None) = None.
+  calls (cfg_before None false) 1 false [ADescribe; ASetup 0] (cl_init script_f10b None) = None.
 Proof. vm_compute. reflexivity. Qed.
 
-(* the same scripts are harmless once Media.URL returns the error *)
+(* the same scripts are harmless now: Setup refuses the media before writing the request *)
 Lemma f10_repaired :
-  exists c ks, calls (mkCfg None true false false false false true None false false false false) 1 false
-                 [ADescribe; ASetup 0] (cl_init script_f10 None) = Some (c, ks) /\ ks = [0; eURLParse].
+  exists c ks, calls (cfg_cur None true) 1 false [ADescribe; ASetup 0] (cl_init script_f10 None) = Some (c, ks) /\
+               ks = [0; eInvalidMediaURL] /\ cl_dead c = None.
+Proof. eexists; eexists. vm_compute. split3; reflexivity. Qed.
+Lemma f10b_repaired :
+  exists c ks, calls (cfg_cur None false) 1 false [ADescribe; ASetup 0] (cl_init script_f10b None) = Some (c, ks) /\
+               ks = [0; eInvalidMediaURL].
 Proof. eexists; eexists. vm_compute. split; reflexivity. Qed.
 
 (* N1: ANNOUNCE + SETUP (the StartRecording flow), the UDP SETUP is answered with a TCP transport *)
@@ -1119,14 +1157,14 @@ Definition script_n1 : script :=
   [(mOptions, [EvResp (rsimple 200)]); (mAnnounce, [EvResp (rsimple 200)]); (mSetup, [EvResp (rsetup_tcp 0 1)]);
    (mOptions, [EvResp (rsimple 200)]); (mDescribe, [EvResp (rdescribe [mOK])])].
 Lemma n1_panics :
-  calls (cfg_asis None false) 1 false [AAnnounce; ASetup 0] (cl_init script_n1 None) = None.
+  calls (cfg_before None false) 1 false [AAnnounce; ASetup 0] (cl_init script_n1 None) = None.
 Proof. vm_compute. reflexivity. Qed.
 
 (* N3: ANNOUNCE accepted, SETUP refused, Record() *)
 Definition script_n3 : script :=
   [(mOptions, [EvResp (rsimple 200)]); (mAnnounce, [EvResp (rsimple 200)]); (mSetup, [EvResp (rsimple 404)])].
 Lemma n3_panics :
-  calls (cfg_asis None false) 1 false [AAnnounce; ASetup 0; ARecord] (cl_init script_n3 None) = None.
+  calls (cfg_before None false) 1 false [AAnnounce; ASetup 0; ARecord] (cl_init script_n3 None) = None.
 Proof. vm_compute. reflexivity. Qed.
 
 (* N4: OPTIONS always 404; Describe, Setup, then a Describe that is redirected: the OPTIONS in front of
@@ -1139,7 +1177,7 @@ Definition script_n4 : script :=
    (mOptions, []);
    (mOptions, [EvResp (rsimple 404)]); (mDescribe, [EvResp (rdescribe [mOK])])].
 Lemma n4_nil_close_error :
-  exists c ks, calls (cfg_asis (Some PTCP) false) 1 false [ADescribe; ASetup 0; ADescribe; AOptions]
+  exists c ks, calls (cfg_before (Some PTCP) false) 1 false [ADescribe; ASetup 0; ADescribe; AOptions]
                  (cl_init script_n4 None) = Some (c, ks) /\
                ks = [0; 0; 0; 0] /\ cl_dead c = Some 0 /\ wsc (cl_w c) = [].
 Proof. eexists; eexists. vm_compute. split3; [reflexivity|reflexivity|split; reflexivity]. Qed.
@@ -1152,14 +1190,14 @@ Fixpoint redirects (n : nat) : script :=
   end.
 
 Lemma describe_redirect_step f sc k :
-  do_describe (S f) (cfg_asis None false) None false
+  do_describe (S f) (cfg_before None false) None false
      (mkW st0 ((mOptions, [EvResp (rsimple 200)]) :: (mDescribe, [EvResp r301]) :: sc) k false)
-  = do_describe f (cfg_asis None false) None false (mkW st0 sc (k + 1 + 1) false).
+  = do_describe f (cfg_before None false) None false (mkW st0 sc (k + 1 + 1) false).
 Proof. reflexivity. Qed.
 
 Lemma describe_follows_all : forall n f k,
   (n < f)%nat ->
-  exists w' r, do_describe f (cfg_asis None false) None false (mkW st0 (redirects n) k false) = (w', r) /\
+  exists w' r, do_describe f (cfg_before None false) None false (mkW st0 (redirects n) k false) = (w', r) /\
                wsent w' = k + 2 * N.of_nat n + 1.
 Proof.
   induction n as [|n IH]; intros f k Hf.
@@ -1175,7 +1213,7 @@ Proof. induction n; cbn; lia. Qed.
    redirects: no bound on the requests of one API call exists *)
 Lemma describe_requests_unbounded : forall n : nat,
   exists sc w' r,
-    do_describe (S (length sc)) (cfg_asis None false) None false (mkW st0 sc 0 false) = (w', r) /\
+    do_describe (S (length sc)) (cfg_before None false) None false (mkW st0 sc 0 false) = (w', r) /\
     wsent w' = 2 * N.of_nat n + 1.
 Proof.
   intro n. exists (redirects n).
@@ -1196,13 +1234,13 @@ Definition script_n2 (n : nat) : script :=
   (mOptions, [EvResp (rsimple 200)]) :: (mDescribe, [EvResp (rdescribe [mOK])]) :: setup_loop n.
 
 Lemma n2_setup_loops :
-  exists c ks, calls (cfg_asis None false) 1 false [ADescribe; ASetup 0] (cl_init (script_n2 20) None) = Some (c, ks) /\
+  exists c ks, calls (cfg_before None false) 1 false [ADescribe; ASetup 0] (cl_init (script_n2 20) None) = Some (c, ks) /\
                100 < wsent (cl_w c) /\ wsc (cl_w c) = [].
 Proof. eexists; eexists. vm_compute. split3; reflexivity. Qed.
 
 (* with the transport fixed after the re-DESCRIBE the same script ends the call after a handful of requests *)
 Lemma n2_repaired :
-  exists c ks, calls (mkCfg None false false false false false true (Some 10%nat) true true true true) 1 false
+  exists c ks, calls (cfg_cur None false) 1 false
                  [ADescribe; ASetup 0] (cl_init (script_n2 20) None) = Some (c, ks) /\ wsent (cl_w c) < 12.
 Proof. eexists; eexists. vm_compute. split; reflexivity. Qed.
 
@@ -1393,21 +1431,17 @@ Proof.
             try (inversion H; subst; try apply within_upd; apply B; exact C)).
   - destruct ((csm_status_moved_permanently <=? rstatus rr) && (rstatus rr <=? csm_status_use_proxy) && negb (loc_absent (rloc rr)));
       [|inversion H; subst; apply B; exact C].
+    destruct k as [|k0]; [inversion H; subst; apply B; exact C|].
     destruct (reset cfg w1) as [w2 r2] eqn:E2. pose proof (reset_cnt _ _ _ _ E2) as C2.
     pose proof (within_trans _ _ _ _ _ C C2) as C'.
-    assert (B' : within (10 * (N.of_nat k + 1)) w w2) by (eapply within_weaken; [|exact C']; lia).
-    assert (REC : forall nr, (if u then (w2, Panic) else
-                  match nr with
-                  | Some O => (w2, Err eTooManyRedirects)
-                  | Some (S k0) => do_describe f cfg (Some k0) false w2
-                  | None => do_describe f cfg None false w2
-                  end) = (w', r) -> nr = Some k -> within (10 * (N.of_nat k + 1)) w w').
-    { intros nr Hr En. subst nr. destruct u; [inversion Hr; subst; exact B'|].
-      destruct k as [|k0]; [inversion Hr; subst; exact B'|].
+    assert (B' : within (10 * (N.of_nat (S k0) + 1)) w w2) by (eapply within_weaken; [|exact C']; lia).
+    assert (REC : (if u then (w2, Panic) else do_describe f cfg (Some k0) false w2) = (w', r) ->
+                  within (10 * (N.of_nat (S k0) + 1)) w w').
+    { intro Hr. destruct u; [inversion Hr; subst; exact B'|].
       pose proof (IH _ _ _ _ _ Hr) as R. pose proof (within_trans _ _ _ _ _ C' R) as T.
       eapply within_weaken; [|exact T]. lia. }
     destruct r2 as [x|x|]; [| |inversion H; subst; exact B'];
-      (destruct (rloc rr); [apply (REC (Some k)); [exact H|reflexivity] | inversion H; subst; exact B' | apply (REC (Some k)); [exact H|reflexivity]]).
+      (destruct (rloc rr); [apply REC; exact H | inversion H; subst; exact B' | apply REC; exact H]).
 Qed.
 
 Lemma die_cnt cfg e c w c' : die cfg e c w = Some c' -> within 4 w (cl_w c').
@@ -1486,4 +1520,291 @@ Proof.
   refine (fin_cnt cfg _ (cl_w c) _ (w1, r1)
             (fun r => match r with Ok d => Some (dmedias d) | _ => cl_desc c end) (fun _ => cl_done c) c' k C _).
   destruct r1; exact H.
+Qed.
+
+(* ---------- 6. the code in /repo today: every repair is on ---------- *)
+
+Definition repaired (cfg : config) : Prop :=
+  xf10 cfg = true /\ xf11 cfg = Some (N.to_nat csm_max_redirects) /\
+  xn1 cfg = true /\ xn2 cfg = true /\ xn3 cfg = true /\ xn4 cfg = true.
+
+Lemma cfg_now_repaired p cr bk ap rs ml : repaired (cfg_now p cr bk ap rs ml).
+Proof. unfold repaired, cfg_now; cbn. repeat split. Qed.
+
+Lemma arg_ok_repaired cfg a c : repaired cfg -> arg_ok cfg a c.
+Proof.
+  intros (F10 & _ & N1 & _ & N3 & _).
+  unfold arg_ok, safe_media, safe_switch, msafe. destruct a; try exact I.
+  - split; [intros; right; exact F10|right; left; exact N1].
+  - left; exact N3.
+  - split; [apply Forall_forall; intros; right; exact F10|right; left; exact N1].
+Qed.
+
+Lemma run_ok_repaired cfg nm rev : repaired cfg -> forall steps c, run_ok cfg nm rev steps c.
+Proof.
+  intros R. induction steps as [|a t IH]; intro c; cbn [run_ok]; [exact I|].
+  split; [apply arg_ok_repaired; exact R|]. destruct (call cfg nm rev a c) as [[c1 k]|]; [apply IH|exact I].
+Qed.
+
+(* the client never panics: every API sequence against every script yields one result per call *)
+Lemma client_no_panic cfg nm rev steps sc desc :
+  repaired cfg ->
+  exists c ks, calls cfg nm rev steps (cl_init sc desc) = Some (c, ks) /\ cl_ok c /\ length ks = length steps.
+Proof. intro R. apply calls_ok; [apply cl_init_ok|apply run_ok_repaired; exact R]. Qed.
+
+Lemma call_keeps_ok cfg nm rev a c :
+  repaired cfg -> cl_ok c ->
+  exists c' k, call cfg nm rev a c = Some (c', k) /\ cl_ok c' /\
+               (cl_dead c = None -> cl_dead c' <> None -> ledger (wst (cl_w c')) = 0).
+Proof. intros R Hc. apply call_ok; [exact Hc|apply arg_ok_repaired; exact R]. Qed.
+
+(* ---------- 7. request bounds for Setup and the idle switch (transport fixed after the re-DESCRIBE) ---------- *)
+
+(* two fields no request/response round touches, whatever the URL and the connection state *)
+Definition frame2 (s s' : cst) : Prop := st_axis s' = st_axis s /\ st_strans s' = st_strans s.
+Lemma frame2_refl s : frame2 s s. Proof. split; reflexivity. Qed.
+Lemma frame2_trans a b c : frame2 a b -> frame2 b c -> frame2 a c.
+Proof. unfold frame2; intuition congruence. Qed.
+
+Lemma do1_f2 cfg m u skip w w' r : do1 cfg m u skip w = (w', r) -> frame2 (wst w) (wst w').
+Proof.
+  unfold do1. intro H.
+  destruct (st_sender (wst w) && u); [inversion H; subst; apply frame2_refl|].
+  destruct (negb (st_conn (wst w))); [inversion H; subst; apply frame2_refl|].
+  assert (P : forall w1 evs, (if m =? mTeardown then (w, []) else pop m w) = (w1, evs) -> wst w1 = wst w).
+  { intros w1 evs E. destruct (m =? mTeardown); [inversion E; reflexivity|].
+    pose proof (pop_st m w) as X. rewrite E in X. exact X. }
+  destruct (if m =? mTeardown then (w, []) else pop m w) as [w1 evs] eqn:Ep.
+  specialize (P _ _ eq_refl).
+  assert (F0 : frame2 (wst w) (wst w1)) by (rewrite P; apply frame2_refl).
+  assert (FU : forall f, (forall s, frame2 s (f s)) -> frame2 (wst w) (wst (upd f w1)))
+    by (intros f Hf; rewrite upd_st, P; apply Hf).
+  destruct skip; [inversion H; subst; exact F0|].
+  destruct (st_ctx (wst w)); [inversion H; subst; apply FU; intros [ ]; split; reflexivity|].
+  destruct (wait (st_frames (wst w)) evs) as [rr|e lost];
+    [|inversion H; subst; apply FU; intros [ ]; split; reflexivity].
+  destruct (rsess rr); try (inversion H; subst; exact F0);
+    (destruct (rstatus rr =? csm_status_unauthorized); [|inversion H; subst; exact F0];
+     destruct u; [inversion H; subst; exact F0|];
+     destruct (ccreds cfg && negb (st_sender (wst w))); [|inversion H; subst; exact F0];
+     destruct (rauth rr); inversion H; subst; try exact F0; apply FU; intros [ ]; split; reflexivity).
+Qed.
+
+Lemma conn_open_f2 w : frame2 (wst w) (wst (conn_open w)).
+Proof.
+  unfold conn_open. destruct (st_conn (wst w)); [apply frame2_refl|].
+  rewrite upd_st. destruct (wst w); split; reflexivity.
+Qed.
+
+Lemma doA_f2 cfg m u w w' r : doA cfg m u w = (w', r) -> frame2 (wst w) (wst w').
+Proof.
+  unfold doA. intro H.
+  destruct (do1 cfg m u false w) as [w1 r1] eqn:E1. pose proof (do1_f2 _ _ _ _ _ _ _ E1) as F1.
+  destruct r1; try (inversion H; subst; exact F1).
+  destruct (do1 cfg m u false w1) as [w2 r2] eqn:E2. pose proof (do1_f2 _ _ _ _ _ _ _ E2) as F2.
+  destruct r2; inversion H; subst; eapply frame2_trans; eauto.
+Qed.
+
+Lemma do_options_f2 cfg u w w' r : do_options cfg u w = (w', r) -> frame2 (wst w) (wst w').
+Proof.
+  unfold do_options. intro H.
+  destruct (check_state pre_states (wst w)); cbn [negb] in H; [|inversion H; subst; apply frame2_refl].
+  destruct (doA cfg mOptions u (conn_open w)) as [w1 r1] eqn:E1.
+  pose proof (frame2_trans _ _ _ (conn_open_f2 w) (doA_f2 _ _ _ _ _ _ E1)) as F1.
+  destruct r1; try (inversion H; subst; exact F1).
+  destruct (rstatus r0 =? csm_status_ok);
+    [inversion H; subst; rewrite upd_st; destruct F1 as (A & B); destruct (wst w1); split; cbn in *; congruence|].
+  destruct (rstatus r0 =? csm_status_not_found); inversion H; subst; exact F1.
+Qed.
+
+Lemma pre_options_f2 cfg m u w w' r : pre_options cfg m u w = (w', r) -> frame2 (wst w) (wst w').
+Proof.
+  unfold pre_options. intro H.
+  destruct (negb (st_optsent (wst w)) && negb (m =? mOptions)).
+  - destruct (do_options cfg u w) as [w1 r1] eqn:E1. pose proof (do_options_f2 _ _ _ _ _ E1) as F1.
+    destruct r1; inversion H; subst; exact F1.
+  - inversion H; subst. apply frame2_refl.
+Qed.
+
+Lemma do_f2 cfg m u skip w w' r : do_ cfg m u skip w = (w', r) -> frame2 (wst w) (wst w').
+Proof.
+  unfold do_. intro H.
+  destruct (pre_options cfg m u w) as [w0 r0] eqn:E0. pose proof (pre_options_f2 _ _ _ _ _ _ E0) as F0.
+  destruct r0; try (inversion H; subst; exact F0).
+  destruct (do1 cfg m u skip w0) as [w1 r1] eqn:E1. pose proof (do1_f2 _ _ _ _ _ _ _ E1) as F1.
+  pose proof (frame2_trans _ _ _ F0 F1) as F01.
+  destruct r1; try (cbn in H; inversion H; subst; exact F01).
+  destruct (pre_options cfg m u w1) as [w2 r2] eqn:E2. pose proof (pre_options_f2 _ _ _ _ _ _ E2) as F2.
+  pose proof (frame2_trans _ _ _ F01 F2) as F02.
+  destruct r2; try (inversion H; subst; exact F02).
+  destruct (do1 cfg m u skip w2) as [w3 r3] eqn:E3. pose proof (do1_f2 _ _ _ _ _ _ _ E3) as F3.
+  assert (w' = w3) by (pose proof (d1_result_w (w3, r3)) as Y; rewrite H in Y; exact Y). subst w'.
+  eapply frame2_trans; eauto.
+Qed.
+
+Lemma do_close_axis cfg w w' r : do_close cfg w = (w', r) -> st_axis (wst w') = st_axis (wst w).
+Proof.
+  unfold do_close. intro H.
+  assert (X : forall s1, (if playing (wst w) then option_map stop_transport (destroy_writer (wst w)) else Some (wst w)) = Some s1 ->
+              st_axis s1 = st_axis (wst w)).
+  { intros s1 E. destruct (playing (wst w)); [|inversion E; reflexivity].
+    unfold destroy_writer in E. destruct (st_writer (wst w)); cbn in E; try discriminate;
+      inversion E; unfold stop_transport; destruct (wst w); cbn; destruct st_reader; reflexivity. }
+  destruct (if playing (wst w) then option_map stop_transport (destroy_writer (wst w)) else Some (wst w)) as [s1|];
+    [|inversion H; subst; reflexivity].
+  specialize (X s1 eq_refl).
+  destruct (st_conn s1 && st_baseurl s1).
+  - destruct (do_ cfg mTeardown false true (upd (fun _ : cst => s1) w)) as [w2 r2] eqn:E2.
+    pose proof (do_f2 _ _ _ _ _ _ _ E2) as (A & _). rewrite upd_st in A.
+    destruct r2; inversion H; subst; rewrite ?upd_st; try (destruct (wst w2); cbn in *; congruence); congruence.
+  - inversion H; subst. rewrite !upd_st. destruct s1; cbn in *; congruence.
+Qed.
+
+Lemma reset_axis cfg w w' r :
+  reset cfg w = (w', r) -> r <> Panic -> st_axis (wst w') = st_axis (wst w) /\ st_strans (wst w') = None.
+Proof.
+  unfold reset. intros H NP. destruct (do_close cfg w) as [w1 r1] eqn:E1.
+  pose proof (do_close_axis _ _ _ _ E1) as A.
+  destruct r1; try (inversion H; subst; contradiction);
+    inversion H; subst; rewrite upd_st; destruct (wst w1); destruct (xn4 cfg); cbn in *; auto.
+Qed.
+
+Lemma do_describe_axis cfg : forall fuel nred u w w' r,
+  do_describe fuel cfg nred u w = (w', r) -> st_axis (wst w') = st_axis (wst w).
+Proof.
+  induction fuel as [|f IH]; intros nred u w w' r H; [cbn in H; inversion H; reflexivity|].
+  cbn [do_describe] in H.
+  destruct (negb (check_state pre_states (wst w))); [inversion H; reflexivity|].
+  destruct (do_ cfg mDescribe u false (conn_open w)) as [w1 r1] eqn:E1.
+  pose proof (frame2_trans _ _ _ (conn_open_f2 w) (do_f2 _ _ _ _ _ _ _ E1)) as (A1 & _).
+  destruct r1 as [[rr|]|e|]; try (inversion H; subst; exact A1).
+  destruct (rstatus rr =? csm_status_ok).
+  - destruct (rdesc rr) as [d|]; [|inversion H; subst; exact A1].
+    repeat (match type of H with (if ?b then _ else _) = _ => destruct b end;
+            try (inversion H; subst; rewrite ?upd_st; try (destruct (wst w1); cbn in *); congruence)).
+  - destruct ((csm_status_moved_permanently <=? rstatus rr) && (rstatus rr <=? csm_status_use_proxy) && negb (loc_absent (rloc rr)));
+      [|inversion H; subst; exact A1].
+    destruct nred as [[|k]|]; [inversion H; subst; exact A1| |];
+      (destruct (reset cfg w1) as [w2 r2] eqn:E2;
+       destruct r2 as [x|x|]; [| |inversion H; subst; pose proof (do_close_axis cfg w1) as Q; unfold reset in E2;
+                                   destruct (do_close cfg w1) as [wq rq]; specialize (Q _ _ eq_refl);
+                                   destruct rq; inversion E2; subst; congruence];
+       (destruct (reset_axis _ _ _ _ E2 ltac:(discriminate)) as (A2 & _);
+        destruct (rloc rr); try (inversion H; subst; congruence);
+        (destruct u; [inversion H; subst; congruence|]);
+        pose proof (IH _ _ _ _ _ H) as R; congruence)).
+Qed.
+
+Lemma validate_switch2 cfg s p secure t :
+  validate cfg s p secure t = VSwitch -> is_none (st_strans s) = true /\ is_none (cproto cfg) = true.
+Proof.
+  unfold validate. intro H. destruct (tbad t); [discriminate|].
+  destruct (udpish p && ttcp t).
+  - destruct (is_none (st_strans s)); cbn in H; [|discriminate].
+    destruct (is_none (cproto cfg)); cbn in H; [auto|discriminate].
+  - exfalso. destruct p; destruct (tsp t) as [[? ?]|]; destruct (til t) as [[? ?]|];
+      repeat break_if; discriminate.
+Qed.
+
+(* recursion measure of doSetup: the key-management retry and the switch to TCP happen at most once each *)
+Definition mu (cfg : config) (s : cst) : N :=
+  (if st_axis s then 0 else 1) + (if is_none (st_strans s) && is_none (cproto cfg) then 1 else 0).
+
+Lemma mu_frame2 cfg s s' : frame2 s s' -> mu cfg s' = mu cfg s.
+Proof. intros (A & B). unfold mu. rewrite A, B. reflexivity. Qed.
+
+Definition level_cost (L : nat) : N := 10 * (N.of_nat L + 2).
+
+Lemma do_setup_cnt cfg L : xf11 cfg = Some L -> xn2 cfg = true ->
+  forall fuel m w w' r, do_setup fuel cfg m w = (w', r) ->
+  within ((mu cfg (wst w) + 1) * level_cost L) w w'.
+Proof.
+  intros HL HN2. unfold level_cost.
+  induction fuel as [|f IH]; intros m w w' r H.
+  { cbn in H. inversion H; subst. apply within_weaken with 0; [lia|apply within_refl]. }
+  cbn [do_setup] in H.
+  assert (Z : forall wx, within 6 w wx -> within ((mu cfg (wst w) + 1) * (10 * (N.of_nat L + 2))) w wx)
+    by (intros; eapply within_weaken; [|eassumption]; unfold mu; repeat break_if; lia).
+  assert (Z0 : within 6 w w) by (apply within_weaken with 0; [lia|apply within_refl]).
+  destruct (negb (check_state pre_states (wst w))); [inversion H; subst; apply Z; exact Z0|].
+  pose proof (conn_open_cnt w) as C0. pose proof (conn_open_f2 w) as F0.
+  set (w0 := conn_open w) in *.
+  assert (Z00 : within 6 w w0) by (eapply within_weaken; [|exact C0]; lia).
+  destruct (match st_strans (wst w0) with
+            | Some ps => ps
+            | None => (match cproto cfg with
+                       | Some p => p
+                       | None => if mpm0 m && play_side (wst w0) then PTCP else PUDP
+                       end, false)
+            end) as [p secure].
+  destruct (match p with PTCP => free_channel (st_medias (wst w0)) | _ => Some 0 end);
+    [|inversion H; subst; apply Z; exact Z00].
+  destruct (mctl m); [ | | inversion H; subst; apply Z; exact Z00 ].
+  all: cbv beta iota zeta in H.
+  all: destruct (mback m && negb (cback cfg)); [inversion H; subst; apply Z; exact Z00|].
+  all: destruct (mpm0 m && (negb (play_side (wst w0)) || negb (proto_eqb p PTCP))); [inversion H; subst; apply Z; exact Z00|].
+  all: match type of H with
+       | (if ?b then _ else _) = _ => destruct b; [inversion H; subst; apply Z; exact Z00|]
+       end.
+  all: match type of H with
+       | (match do_ ?c ?mm ?uu ?sk ?ww with _ => _ end) = _ =>
+           destruct (do_ c mm uu sk ww) as [w1 r1] eqn:E1;
+           pose proof (do_cnt _ _ _ _ _ _ _ E1) as C1; change (mSetup =? mTeardown) with false in C1;
+           pose proof (do_f2 _ _ _ _ _ _ _ E1) as F1
+       end.
+  all: pose proof (within_trans 0 6 _ _ _ C0 C1) as C01; cbn in C01.
+  all: pose proof (mu_frame2 cfg _ _ (frame2_trans _ _ _ F0 F1)) as M1.
+  all: destruct r1 as [[rr|]|e|]; try (inversion H; subst; apply Z; exact C01).
+  all: destruct (negb (rstatus rr =? csm_status_ok)).
+  all: try (destruct ((rstatus rr =? csm_status_unsupported_transport) && is_none (st_strans (wst w1)) && is_none (cproto cfg)) eqn:Ea;
+            [ (* 461: the transport becomes TCP, the measure drops *)
+              pose proof (IH _ _ _ _ H) as R; rewrite upd_st in R;
+              pose proof (within_trans _ _ _ _ _ C01 (within_of_upd _ _ _ _ R)) as T;
+              eapply within_weaken; [|exact T];
+              apply Bool.andb_true_iff in Ea; destruct Ea as (Ea & Ec); apply Bool.andb_true_iff in Ea; destruct Ea as (_ & Es);
+              rewrite <- M1; unfold mu; rewrite Es, Ec;
+              destruct (wst w1); cbn; destruct st_axis; cbn; lia
+            | destruct ((rstatus rr =? csm_status_key_mgmt_failure) && rkeymsg rr && negb (st_axis (wst w1))) eqn:Eb;
+              [ pose proof (IH _ _ _ _ H) as R; rewrite upd_st in R;
+                pose proof (within_trans _ _ _ _ _ C01 (within_of_upd _ _ _ _ R)) as T;
+                eapply within_weaken; [|exact T];
+                apply Bool.andb_true_iff in Eb; destruct Eb as (_ & Ex); apply Bool.negb_true_iff in Ex;
+                rewrite <- M1; unfold mu; rewrite Ex;
+                destruct (wst w1); cbn in *; subst; cbn; destruct (is_none st_strans && is_none (cproto cfg)); lia
+              | inversion H; subst; apply Z; exact C01 ] ]; fail).
+  all: destruct (rth rr) as [t|]; [|inversion H; subst; apply Z; exact C01].
+  all: destruct (validate cfg (wst w1) p secure t) eqn:Ev;
+         [ inversion H; subst; apply within_upd; apply Z; exact C01 | inversion H; subst; apply Z; exact C01 | ].
+  (* switch to TCP *)
+  all: destruct (validate_switch2 _ _ _ _ _ Ev) as (Es & Ec).
+  all: assert (Mw : mu cfg (wst w) = (if st_axis (wst w1) then 0 else 1) + 1)
+         by (rewrite <- M1; unfold mu; rewrite Es, Ec; reflexivity).
+  all: destruct (reset cfg (upd (set_baseurl true) w1)) as [w2 r2] eqn:E2.
+  all: pose proof (within_of_upd _ _ _ _ (reset_cnt _ _ _ _ E2)) as C2.
+  all: destruct r2 as [u2|e2|]; [| |inversion H; subst; pose proof (within_trans _ _ _ _ _ C01 C2) as T;
+                                     eapply within_weaken; [|exact T]; rewrite Mw; break_if; lia].
+  all: destruct (reset_axis _ _ _ _ E2 ltac:(discriminate)) as (A2 & _).
+  all: assert (A2' : st_axis (wst w2) = st_axis (wst w1))
+         by (rewrite A2, upd_st; destruct (wst w1); reflexivity).
+  all: rewrite HN2 in H; cbv beta iota zeta in H.
+  all: assert (RECB : forall wx, st_axis (wst wx) = st_axis (wst w1) -> within (4 + 10 * (N.of_nat L + 1)) w1 wx ->
+                do_setup f cfg m (upd (set_strans (Some (PTCP, secure))) wx) = (w', r) ->
+                within ((mu cfg (wst w) + 1) * (10 * (N.of_nat L + 2))) w w')
+    by (intros wx Ax Cx Hx; pose proof (IH _ _ _ _ Hx) as R; rewrite upd_st in R;
+        pose proof (within_trans _ _ _ _ _ (within_trans _ _ _ _ _ C01 Cx) (within_of_upd _ _ _ _ R)) as T;
+        eapply within_weaken; [|exact T]; rewrite Mw;
+        unfold mu; destruct (wst wx); cbn in *; subst; cbn; break_if; lia).
+  all: destruct (xn1 cfg && negb (st_lasturl (wst w2)));
+         [ eapply RECB; [exact A2'| |exact H]; eapply within_weaken; [|exact C2]; lia |].
+  all: destruct (do_describe (S (length (wsc w2))) cfg (xf11 cfg) (negb (st_lasturl (wst w2))) w2) as [w4 r4] eqn:E4.
+  all: rewrite HL in E4.
+  all: pose proof (do_describe_cnt _ _ _ _ _ _ _ E4) as C4.
+  all: pose proof (do_describe_axis _ _ _ _ _ _ _ E4) as A4.
+  all: pose proof (within_trans _ _ _ _ _ C2 C4) as C24.
+  all: destruct r4 as [d4|e4|];
+         [ eapply RECB; [congruence|exact C24|exact H]
+         | inversion H; subst; pose proof (within_trans _ _ _ _ _ C01 C24) as T;
+           eapply within_weaken; [|exact T]; rewrite Mw; break_if; lia
+         | inversion H; subst; pose proof (within_trans _ _ _ _ _ C01 C24) as T;
+           eapply within_weaken; [|exact T]; rewrite Mw; break_if; lia ].
 Qed.
